@@ -83,7 +83,7 @@ CHECKS["C09"] = {
     ],
 }
 CHECKS["C10"]["harnesses"].append(
-    dict(_HTTP, harness="Harness_C10_bodies", setup="Setup_C10_bodies", reach=["bodies.rejected", "bodies.ok"],
+    dict(_HTTP, harness="Harness_C10_bodies", setup="Setup_C10_bodies", reach=["bodies.rejected", "bodies.ok"], quick={"sample_models": 24, "sample_every": 3},
          what="malformed bodies / query strings on POST, GET, urlencoded form and application/graphql transports through the real Executor; recover hook must not run"))
 
 CHECKS["C10"]["harnesses"].append(
@@ -376,3 +376,7 @@ CHECKS["C05"]["harnesses"].append(
 CHECKS["C04"]["harnesses"].append(
     dict(_WS, harness="Harness_C11_subscribe", reach=["c11.sub.ran", "c11.sub.rejected"], quick={"sample_models": 12, "sample_every": 9},
          what="websocket subscribe goroutine: user code panicking while the operation is dispatched (operation interceptor / subscription directive) or while a result is produced: error frame for the id, recover hook, no panic escapes the goroutine (process keeps serving)"))
+
+CHECKS["C09"]["harnesses"].append(
+    dict(_HTTP, harness="Harness_C09_negotiationSequence", setup="Setup_C09_negotiationSequence", reach=["c09.negseq"], quick={"sample_models": 20, "sample_every": 5},
+         what="two requests through one server with configured response headers (none / without Content-Type) x 3 x 3 Accept headers x GET/POST x valid / invalid second document: Content-Type and client-error status of the second answer follow its own Accept"))
